@@ -135,6 +135,15 @@ def run(ctx):
     pipeprop.run(ctx, "C17", FOCUS, oracle, 300, 5000,
                  "random command lines with --info-file, adapters of all types incl. linked, --times, --revcomp and the modifications that run before "
                  "adapter trimming (-u +/-, -q a,b, --nextseq-trim); non-trivial = distinct match row checked", nontrivial=lambda c, r: False)
+    # rows of matches found through the adapter index (default mode with several anchored adapters)
+    def extras(rng):
+        e = ["--info-file", "{dir}/info.txt"]
+        if rng.random() < 0.3:
+            e += ["--times", "2"]
+        if rng.random() < 0.3:
+            e += ["--action", rng.choice(["mask", "none", "lowercase", "retain"])] if "--times" not in e else ["--action", rng.choice(["mask", "none"])]
+        return e
+    pipeprop.indexed_sweep(ctx, oracle, 60, 1500, extras)
 
 
 def extended_search(ctx):
